@@ -35,7 +35,7 @@ replay file stores.
   meta    metadata values on their own: `json.dumps(v, default=json_serializer)` as a tree and after `json.loads`.
 
 non-trivial = an in-domain Output with >= 2 gap cells holding a NaN and a finite non-integer cell, whose metadata holds at
-least one value that is not JSON-native (Path / tuple / object / non-str key); distinct by the canonical text of the case.
+least one value that is not JSON-native (Path / tuple / object / non-str key); distinct by (sub-stream, seed).
 
 Observed on the unchanged tree (documented, none of them a violation of C19 as quantified):
   * zero rows: (0, k) is written as `[]` and read back with shape (0,); an int (k, 0) array comes back float64;
@@ -739,7 +739,7 @@ def run(tier: str, budget: Budget, rnd, arg: str) -> StreamResult:
                         res.count(f"in:poison:{case['poison']}")
                     elif info["ok"]:
                         if nontrivial(case):
-                            res.nontrivial.add(hash(info["line"]))
+                            res.nontrivial.add(("in", seed))
                         group.append(case)
                         if len(group) == 6:
                             file_group(res, script, group, base, f"g{i}")
